@@ -3,6 +3,7 @@
   cirbo/synthesis/generation/arithmetics/multiplication.py   add_mul, add_mul_alter, add_mul_pow2_m1,
                                                               last_step_sum_with_new_powers_sum, add_mul_karatsuba,
                                                               add_mul_karatsuba_with_efficient_sum, add_mul_dadda,
+                                                              add_mul_wallace (grammar of translator/t22_wallace.py),
                                                               MulMode, _process_mul, generate_mul
   cirbo/synthesis/generation/arithmetics/square.py           add_square_pow2_m1, add_square, SquareMode,
                                                               _process_square, generate_square
@@ -23,8 +24,6 @@ What is NOT re-derived here (used exactly as the hand models use it):
                                                          parameter list is compared literally with the text the adaptor
                                                          stands for (EXTERNAL)
   add_sub_two_numbers                                 -> the hand model of property C09 (Model/ArithSub.v), same way
-  add_mul_wallace                                     -> the hand model Model/ArithMul.v (NOT translated: nested closures
-                                                         over a mutable cell, see DESIGN.md); only named by _process_mul
   MulMode / SquareMode                                -> the constructors of mul_mode / square_mode (Model/ArithMul.v,
                                                          ArithSquare.v); the class bodies are compared member by member
 
